@@ -15,7 +15,7 @@ for s in ids:
         print(s, "patch does not apply"); continue
     row = {}
     try:
-        for c in dict.fromkeys([s, "C01", "C05", "C16", "C20"]):
+        for c in dict.fromkeys([s[:3], "C01", "C05", "C16", "C20"]):
             r = subprocess.run(f"VERIF_SCRATCH=1 timeout 1200 ./check {c}", shell=True, capture_output=True, text=True)
             v = [l for l in r.stdout.splitlines() if l.startswith("VIOLATION")]
             u = [l for l in r.stdout.splitlines() if l.startswith("UNDECIDED")]
